@@ -1,9 +1,10 @@
 (* Model of StatusList2021 (status_list.rs), StatusList2021Credential / MutStatusList
    (credential.rs) and check_status_with_status_list_2021 (jwt_credential_validator_utils.rs),
    as of the tree after the two `fix:` commits (clear mask, lazy bounds test).
-   Bytes are N < 256.  gzip + Base64 are one opaque codec (Section variables). *)
+   Bytes are N < 256.  gzip is an opaque codec (Section variables); the Base64 layer around it (multibase Base::Base64: the
+   standard alphabet without padding) is Lib/Base64.v with the alphabet of Cred/Bitmap.v. *)
 From Coq Require Import List NArith Bool.
-From IdV Require Import Lib.Outcome.
+From IdV Require Import Lib.Outcome Lib.Base64 Doc.Doc Cred.Bitmap.
 Import ListNotations.
 Open Scope N_scope.
 
@@ -125,10 +126,15 @@ Definition sl_check_status (c : sl_cred) (mode : sl_check)
     end
   end.
 
-(* ---- codec (gzip + Base64), opaque ---- *)
+(* ---- codec: Base64 (modelled) over gzip (opaque) ---- *)
 Section Codec.
-  Variables (S : Type) (enc : list N -> S) (dec : S -> option (list N)).
-  Definition sl_encode (l : list N) : S := enc l.
-  Definition sl_decode (s : S) : outcome (list N) sl_err :=
-    match dec s with Some l => Ok l | None => Err SlInvalidEncoding end.
+  Variables (gz : list N -> list N) (gunzip : list N -> option (list N)).
+  (* into_encoded_str: BaseEncoding::encode(gzip(bytes), Base::Base64) *)
+  Definition sl_encode (l : list N) : list N := b64s_encode (gz l).
+  (* try_from_encoded_str: BaseEncoding::decode(s, Base::Base64) then GzDecoder::read_to_end *)
+  Definition sl_decode (s : list N) : outcome (list N) sl_err :=
+    match b64s_decode s with
+    | Some z => match gunzip z with Some l => Ok l | None => Err SlInvalidEncoding end
+    | None => Err SlInvalidEncoding
+    end.
 End Codec.
